@@ -99,6 +99,7 @@ func (db *LDBDatabase) Put(key []byte, value []byte) error {
 	if !db.inited {
 		return ErrLDBInit
 	}
+	verifC05Write(db.db, "put", key, 1)
 	return db.db.Put(key, value, nil)
 }
 
@@ -129,6 +130,7 @@ func (db *LDBDatabase) Delete(key []byte) error {
 	if !db.inited {
 		return ErrLDBInit
 	}
+	verifC05Write(db.db, "del", key, 1)
 	return db.db.Delete(key, nil)
 }
 
@@ -178,6 +180,7 @@ func (b *ldbBatch) Put(key, value []byte) error {
 
 func (b *ldbBatch) Write() error {
 	b.logger.Debugf("batchWrite. length: %d ", b.size)
+	verifC05Write(b.db, "batch", nil, b.b.Len())
 	return b.db.Write(b.b, nil)
 }
 
